@@ -36,6 +36,7 @@ type ReqRec struct {
 	ReturnT   int64
 	Ups       []int // indices into History.Ups
 	Res       *ClientResult
+	Cancelled bool // the client went away while the request was in progress
 	Dead      bool // abandoned by a crash
 	DeadT     int64
 	DeadSeq   int
